@@ -5,7 +5,7 @@ from .. import env, coq, runner, gates, tables
 
 LEVEL = 'proof'
 META = dict(
-    text='Coq theorems over a generic commutative ring with unit parameters, hence for every exponent at once: for each of the 18 dispatch branches of the IonQ serializer (x v vi rx y ry z s si t ti rz xx yy zz cnot swap h) the vendor meaning of the emitted gate equals the Cirq gate matrix (regenerated eigen tables) up to an explicit unit factor, for every exponent of the branch class and for all exponents in the rotation branches; the dispatch table regenerated from the working tree (945 rows: special exponents, just inside/outside the 1e-8 window, generic) equals the model decision function; native gpi/gpi2/ms/zz pass their parameters through; pauliexp term strings are little-endian for strings of any length; the measurement-metadata codec round-trips for every key/target list without separators and every chunk size; bit reversal is an involution and both result paths give qubit targets[i] bit targets[i] of the little-endian outcome; the AQT operation list is translated operation by operation into the v1 payload with matrices equal to the Cirq gates up to phase. On every run the REAL payloads of cirq_ionq.Serializer (single, batch, QIS, native) and AQTSampler (_generate_json, v1) for generated circuits are interpreted by the vendor semantics inside Coq and compared up to global phase with the reference unitary; metadata and result conversion are compared exactly with the codec model; unsupported content must raise; Service / Sampler / AQT samplers are run end to end against a stand-in vendor; the Pasqal request body must read back as the resolved circuit. HISTORIES of calls on one sampler / service object (Vendor/History.v: a sampler that keeps nothing, or keeps VALUES, posts at every call the circuit as it is then; one that keeps the caller\'s mutable object does not — refuted with the witness submit / insert in place / submit again — and only in-place mutation can expose it): on every run PasqalSampler, AQTSampler, AQTSamplerLocalSimulator and cirq_ionq.Service / its Sampler (QIS and native) are driven through histories in which the same mutable cirq.Circuit is submitted, edited in place (insert / append / del / setitem / slice assignment / batch_insert / batch_insert_into / batch_replace / batch_remove / clear_operations_touching), submitted again with an equal or another resolver, as a sweep, in a batch, as an equal copy or frozen; every recorded request body is decoded by the vendor gate definitions and must mean the circuit at the time of its call (unitary up to phase, measurement layout, register), and the decoded bodies must equal the history model evaluated in Coq. MEASUREMENTS of AQT circuits (Vendor/AQTMeas.v: a job can say one thing about measuring — all qubits, at the end, in index order, under m; the sampler refuses every circuit holding a measurement operation, whatever it accepts comes back with the meaning of the circuit, the terminal readout of all qubits under m is the only measurement whose circuit means the job of its gates, and posting the gates alone is refuted by seven witnesses: a measurement followed by a gate, another key, a subset, another order, an invert mask, two keys, a middle measurement plus terminal readout): on every run circuits with measurement operations in the middle / first / last, under m or other keys, on subsets, permuted, with invert masks and confusion maps, basis-state and superposition flavours on 1-3 qubits, plus random ones, go through AQTSampler._generate_json + _parse_legacy_circuit_json, AQTSampler.run_sweep (stand-in vendor answering every basis outcome) and AQTSamplerLocalSimulator.run_sweep; each must be refused or return results whose exact joint distribution (keys, columns, probabilities; 600 samples within total variation 0.18 for the local simulator) is that of the circuit\'s own measurement records, branching over the outcomes of measurements in the middle; basis-state cases are compared with the model inside Coq. The EDGE of the IonQ vocabulary (Vendor/IonQ.v reads `control` / `controls` on any qis gate as |0><0| (x) 1 + |1><1| (x) U; proved: controlled x is cnot, controls nest, controlled z / s / si / t / ti are CZPowGate at the exponent classes 1, 1/2, -1/2, 1/4, -1/4 exactly, controlled rz(pi e) is CZ**e times Z**(-e/2) on the control and a scalar multiple of CZ**e only if exp(i pi e/2) = 1 - refuted at e = 1/2): on every run CZ / CY / iSWAP / CCZ / CCX / CCY powers, H / CNOT / SWAP powers on both sides of their accepted class, and controlled versions (sub.controlled() and cirq.ControlledGate, one and two controls) of X / Y / Z / H powers, rx / ry / rz, XX / YY / ZZ / CNOT / SWAP powers, over a fixed grid of exponents (special values, window boundaries, generic) and wire layouts, plus random ones, must be refused or, if accepted, the payload read inside Coq must be the unitary of the circuit.',
+    text='Coq theorems over a generic commutative ring with unit parameters, hence for every exponent at once: for each of the 18 dispatch branches of the IonQ serializer (x v vi rx y ry z s si t ti rz xx yy zz cnot swap h) the vendor meaning of the emitted gate equals the Cirq gate matrix (regenerated eigen tables) up to an explicit unit factor, for every exponent of the branch class and for all exponents in the rotation branches; the dispatch table regenerated from the working tree (945 rows: special exponents, just inside/outside the 1e-8 window, generic) equals the model decision function; native gpi/gpi2/ms/zz pass their parameters through; pauliexp term strings are little-endian for strings of any length; the measurement-metadata codec round-trips for every key/target list without separators and every chunk size; bit reversal is an involution and both result paths give qubit targets[i] bit targets[i] of the little-endian outcome; the AQT operation list is translated operation by operation into the v1 payload with matrices equal to the Cirq gates up to phase. On every run the REAL payloads of cirq_ionq.Serializer (single, batch, QIS, native) and AQTSampler (_generate_json, v1) for generated circuits are interpreted by the vendor semantics inside Coq and compared up to global phase with the reference unitary; metadata and result conversion are compared exactly with the codec model; unsupported content must raise; Service / Sampler / AQT samplers are run end to end against a stand-in vendor; the Pasqal request body must read back as the resolved circuit. HISTORIES of calls on one sampler / service object (Vendor/History.v: a sampler that keeps nothing, or keeps VALUES, posts at every call the circuit as it is then; one that keeps the caller\'s mutable object does not — refuted with the witness submit / insert in place / submit again — and only in-place mutation can expose it): on every run PasqalSampler, AQTSampler, AQTSamplerLocalSimulator and cirq_ionq.Service / its Sampler (QIS and native) are driven through histories in which the same mutable cirq.Circuit is submitted, edited in place (insert / append / del / setitem / slice assignment / batch_insert / batch_insert_into / batch_replace / batch_remove / clear_operations_touching), submitted again with an equal or another resolver, as a sweep, in a batch, as an equal copy or frozen; every recorded request body is decoded by the vendor gate definitions and must mean the circuit at the time of its call (unitary up to phase, measurement layout, register), and the decoded bodies must equal the history model evaluated in Coq. MEASUREMENTS of AQT circuits (Vendor/AQTMeas.v: a job can say one thing about measuring — all qubits, at the end, in index order, under m; the sampler refuses every circuit holding a measurement operation, whatever it accepts comes back with the meaning of the circuit, the terminal readout of all qubits under m is the only measurement whose circuit means the job of its gates, and posting the gates alone is refuted by seven witnesses: a measurement followed by a gate, another key, a subset, another order, an invert mask, two keys, a middle measurement plus terminal readout): on every run circuits with measurement operations in the middle / first / last, under m or other keys, on subsets, permuted, with invert masks and confusion maps, basis-state and superposition flavours on 1-3 qubits, plus random ones, go through AQTSampler._generate_json + _parse_legacy_circuit_json, AQTSampler.run_sweep (stand-in vendor answering every basis outcome) and AQTSamplerLocalSimulator.run_sweep; each must be refused or return results whose exact joint distribution (keys, columns, probabilities; 600 samples within total variation 0.18 for the local simulator) is that of the circuit\'s own measurement records, branching over the outcomes of measurements in the middle; basis-state cases are compared with the model inside Coq. The EDGE of the IonQ vocabulary (Vendor/IonQ.v reads `control` / `controls` on any qis gate as |0><0| (x) 1 + |1><1| (x) U; proved: controlled x is cnot, controls nest, controlled z / s / si / t / ti are CZPowGate at the exponent classes 1, 1/2, -1/2, 1/4, -1/4 exactly, controlled rz(pi e) is CZ**e times Z**(-e/2) on the control and a scalar multiple of CZ**e only if exp(i pi e/2) = 1 - refuted at e = 1/2): on every run CZ / CY / iSWAP / CCZ / CCX / CCY powers, H / CNOT / SWAP powers on both sides of their accepted class, and controlled versions (sub.controlled() and cirq.ControlledGate, one and two controls) of X / Y / Z / H powers, rx / ry / rz, XX / YY / ZZ / CNOT / SWAP powers, over a fixed grid of exponents (special values, window boundaries, generic) and wire layouts, plus random ones, must be refused or, if accepted, the payload read inside Coq must be the unitary of the circuit. BATCH results (Vendor/IonQBatch.v: the answer to a batch job holds one histogram per child circuit in submission order, each under an opaque child id; proved: position k of the result is histogram k read with metadata entry k, the ids do not matter, reading the answer in the order of the ids agrees only when the ids ascend - refuted with two circuits named b, a): on every run batches whose children differ in outcome, width, keys, target order or only in the weights are answered under ascending / descending / counter (9, 10, 11) / rotated / uuid4 / same-millisecond uuid7 child ids on QPU and simulator targets, through Job.results + to_cirq_result (compared with the model inside Coq) and through Service.run_batch against the stand-in vendor; every position must come back with the outcomes of the circuit submitted at that position.',
     note='Trusted: Coq kernel; the transcription of the IonQ / AQT gate definitions and of the little-endian conventions (headers of coq/Vendor/IonQ.v, AQT.v); the Python adapters that copy JSON fields and turn angles into unit complex numbers; the float instance (PrimFloat, tolerance 1e-9, 5e-7 when an exponent lies inside the serializer window); the stand-in vendors used for the end-to-end streams follow the same trusted text. Vendor services are not contacted. Field NAMES of the vendor JSON (e.g. `phase` vs `angle` for native zz) are taken as the serializer writes them; only their meaning is checked. Known findings: invert_mask / confusion_map / repeated measurement keys are accepted and altered by the IonQ serializer; AQTSampler does not validate qubit type / index.',
     technique='Rocq/Coq proof over generic-ring gate semantics and list codecs + vm_compute interpretation of real vendor payloads against the reference unitary',
 )
@@ -14,7 +14,7 @@ TOL = '0x1p-30'     # ~ 9.3e-10
 TOLW = '0x1p-21'    # ~ 4.8e-7: an exponent inside the serializer's 1e-8 window is rounded to the special gate
 PRE = (gates.COQ_HEADER + 'From Coq Require Import String.\nFrom VF Require Import Sim.Ref Vendor.IonQ Vendor.AQT.\n'
        'Open Scope string_scope.\n')
-PRE_D = ('From Coq Require Import List ZArith NArith Bool.\nFrom VF Require Import Base.Harness Codec.MetaChunks.\n'
+PRE_D = ('From Coq Require Import List ZArith NArith Bool.\nFrom VF Require Import Base.Harness Codec.MetaChunks Vendor.IonQBatch.\n'
          'Import ListNotations.\nOpen Scope Z_scope.\n')
 SPECIALS = [1.0, 0.5, -0.5, 0.25, -0.25]
 ATOL = 1e-8
@@ -915,6 +915,8 @@ def replay_discrete(cirq, mods, rep):
         return results_oracle(cirq, mods, rep)
     if kind == 'ionq_e2e':
         return e2e_oracle(cirq, mods, rep)
+    if kind == 'ionq_batch_results':
+        return batch_results_oracle(cirq, mods, rep)
     if kind == 'ionq_reject':
         return reject_oracle(cirq, mods, rep)
     if kind == 'aqt_payload':
@@ -1091,13 +1093,17 @@ class FakeVendor:
     """Answers cirq_ionq's HTTP requests: stores the posted job, interprets its program by the documented gate definitions
     starting from |0...0>, and returns the outcome probabilities keyed by LITTLE-endian integers (qubit k = bit k)."""
 
-    def __init__(self):
+    def __init__(self, ids=None):
         self.body = None
+        self.ids = ids          # the names the service hands out for the children of a batch (opaque; None: c0, c1, ...)
 
     def post(self, url, json=None, headers=None, **kw):
         import json as J
         self.body = J.loads(J.dumps(json))            # what goes over the wire must be JSON
         return _Resp({'id': 'job-1', 'status': 'ready'})
+
+    def child_id(self, i):
+        return self.ids[i] if self.ids else f'c{i}'
 
     def histogram(self, ops, n, native):
         u = np_prog_unitary([np_ionq_gate(op, native) for op in ops], n)
@@ -1119,7 +1125,8 @@ class FakeVendor:
                           'stats': {'qubits': str(inp['qubits'])}})
         if '/results/probabilities' in url:
             if 'circuits' in inp:
-                return _Resp({f'c{i}': self.histogram(c['circuit'], inp['qubits'], native) for i, c in enumerate(inp['circuits'])})
+                # one histogram per child circuit, in the order the circuits were submitted, each under the child's id
+                return _Resp({self.child_id(i): self.histogram(c['circuit'], inp['qubits'], native) for i, c in enumerate(inp['circuits'])})
             return _Resp(self.histogram(inp['circuit'], inp['qubits'], native))
         raise AssertionError(url)
 
@@ -1152,12 +1159,12 @@ def gen_classical_case(rng, max_q=5):
     return dict(vendor='ionq', gateset='qis', ops=ops, strat=['E'] * len(ops), meas=meas, window=False)
 
 
-def run_service(cirq, mods, circuits, target, reps, batch=False, via_sampler=False):
+def run_service(cirq, mods, circuits, target, reps, batch=False, via_sampler=False, ids=None):
     """Service.run / run_batch / Sampler over the fake vendor. Returns list of {key: rows}."""
     from unittest import mock
     ci = mods['cirq_ionq']
     import cirq_ionq.ionq_client as ic
-    srv = FakeVendor()
+    srv = FakeVendor(ids=ids)
     svc = ci.Service(remote_host='http://example.invalid', api_key='k', default_target=target)
     with mock.patch.object(ic.requests, 'post', srv.post), mock.patch.object(ic.requests, 'get', srv.get):
         if batch:
@@ -1172,7 +1179,8 @@ def run_service(cirq, mods, circuits, target, reps, batch=False, via_sampler=Fal
 def e2e_oracle(cirq, mods, rep):
     cases = rep['cases']
     circuits = [build_circuit(cirq, mods, c) for c in cases]
-    got, _ = run_service(cirq, mods, circuits, rep['target'], rep['reps'], batch=rep['mode'] == 'batch', via_sampler=rep['mode'] == 'sampler')
+    got, _ = run_service(cirq, mods, circuits, rep['target'], rep['reps'], batch=rep['mode'] == 'batch', via_sampler=rep['mode'] == 'sampler',
+                         ids=rep.get('ids'))
     if len(got) != len(cases):
         return False
     for c, g in zip(cases, got):
@@ -1201,6 +1209,302 @@ def e2e_stream(ctx, cirq, mods, n):
             _disagree(ctx, 'correspondence:ionq_e2e', json.dumps(rep)[:300], 'ionq_e2e:bits',
                          f'classical circuit {cases} run through Service.{mode} on a vendor following the documented definitions '
                          f'returns bits that are not the circuit\'s', rep)
+
+
+# ---------------------------------------------------------------------------------------------------
+# batch jobs: the vendor answers with one histogram per child circuit, in the order the circuits were submitted, each under the
+# id the service handed out for that child.  The ids are opaque names (Vendor/IonQBatch.v: batch_qpu_ids_opaque); which ones a
+# service hands out is nothing a client may lean on, so every batch is answered under several id schemes.  The result at
+# position k must be the k-th histogram read with the width / keys / targets of the k-th submitted circuit.
+# ---------------------------------------------------------------------------------------------------
+ID_SCHEMES = ['ascending', 'descending', 'numeric', 'rotated', 'uuid4', 'uuid7_one_ms']
+
+
+def child_ids(scheme, k, rng):
+    """k distinct child ids in SUBMISSION order."""
+    def uuid4():
+        h = f'{rng.getrandbits(128):032x}'
+        return f'{h[:8]}-{h[8:12]}-4{h[13:16]}-{"89ab"[rng.randrange(4)]}{h[17:20]}-{h[20:]}'
+
+    def uuid7():          # time-ordered ids handed out within one millisecond: common 48-bit timestamp, random tail
+        return f'0190070f-9691-7{rng.getrandbits(12):03x}-{"89ab"[rng.randrange(4)]}{rng.getrandbits(12):03x}-{rng.getrandbits(48):012x}'
+
+    if scheme == 'ascending':
+        return [f'c{i}' for i in range(k)]
+    if scheme == 'descending':
+        return [f'c{k - 1 - i}' for i in range(k)]
+    if scheme == 'numeric':              # a counter: '9', '10', '11' count up, but '10' < '9' as text
+        return [str(9 + i) for i in range(k)]
+    if scheme == 'rotated':
+        ids = [f'job-{i:03d}' for i in range(k)]
+        return ids[1:] + ids[:1]
+    while True:
+        ids = [uuid4() if scheme == 'uuid4' else uuid7() for _ in range(k)]
+        if len(set(ids)) == k:
+            return ids
+
+
+def _fixed_batches():
+    """(name, children, reps): children differ in outcome, in layout (width, keys, targets, order) or only in the weights."""
+    yield 'two circuits of one width, another qubit flipped', [
+        dict(n=2, meas=[['a', [0, 1]]], hist=[[1, 1]], picks=[0]), dict(n=2, meas=[['b', [0, 1]]], hist=[[2, 1]], picks=[0])], 1
+    yield 'three circuits of different widths and keys', [
+        dict(n=3, meas=[['m', [2, 1, 0]]], hist=[[5, 2], [1, 1]], picks=[1, 0, 0]),
+        dict(n=2, meas=[['lo', [0]], ['hi', [1]]], hist=[[2, 3]], picks=[0]),
+        dict(n=1, meas=[['only', [0]]], hist=[[1, 3]], picks=[0])], 3
+    yield 'four circuits of one layout, the excitation moves', [
+        dict(n=4, meas=[['z', [0, 1, 2, 3]]], hist=[[1 << i, 1]], picks=[0]) for i in range(4)], 2
+    yield 'two circuits that differ in the weights only', [
+        dict(n=2, meas=[['w', [1, 0]]], hist=[[0, 1], [3, 3]], picks=[0, 1, 1, 1]),
+        dict(n=2, meas=[['w', [1, 0]]], hist=[[0, 3], [3, 1]], picks=[0, 0, 0, 1])], 4
+
+
+def batch_results_fixed_cases(rng):
+    for name, children, reps in _fixed_batches():
+        for scheme in ID_SCHEMES:
+            for target in ('qpu', 'simulator'):
+                yield dict(kind='ionq_batch_results', name=name, scheme=scheme, ids=child_ids(scheme, len(children), rng),
+                           children=children, target=target, reps=reps)
+
+
+def gen_batch_results_case(rng):
+    k = rng.randint(1, 4)
+    shots = rng.randint(1, 5)
+    children = []
+    for _ in range(k):
+        c = gen_results_case(rng)
+        m = rng.randint(1, min(2 ** c['n'], shots, 4))
+        cuts = sorted(rng.sample(range(1, shots), m - 1))
+        counts = [b - a for a, b in zip([0] + cuts, cuts + [shots])]
+        hist = [[o, w] for o, w in zip(rng.sample(range(2 ** c['n']), m), counts)]
+        children.append(dict(n=c['n'], meas=c['meas'], hist=hist, picks=[rng.randrange(m) for _ in range(rng.randint(1, 5))]))
+    scheme = rng.choice(ID_SCHEMES)
+    return dict(kind='ionq_batch_results', name='random', scheme=scheme, ids=child_ids(scheme, k, rng), children=children,
+                target=rng.choice(['qpu', 'qpu.aria-1', 'simulator']), reps=rng.randint(1, 5))
+
+
+def batch_circuits(cirq, children):
+    q = cirq.LineQubit
+    return [cirq.Circuit([cirq.X(q(c['n'] - 1))] + [cirq.measure(*[q(t) for t in ts], key=k) for k, ts in c['meas']]) for c in children]
+
+
+def run_batch_results_case(cirq, mods, rep):
+    """Real batch metadata -> Job -> results() -> to_cirq_result per child.  Returns [(result object, {key: rows}, Picks|None)]."""
+    ch = rep['children']
+    qpu = rep['target'].startswith('qpu')
+    shots = sum(c for _, c in ch[0]['hist'])
+    prog = mods['cirq_ionq'].Serializer().serialize_many_circuits(batch_circuits(cirq, ch))
+    md = dict(prog.metadata)
+    md['shots'] = str(shots if qpu else rep['reps'])
+    answer = {rep['ids'][i]: {str(o): c / shots for o, c in child['hist']} for i, child in enumerate(ch)}
+    answer = json.loads(json.dumps(answer))                 # what comes over the wire is JSON, children in submission order
+    job = mods['cirq_ionq'].Job(client=FakeClient(answer),
+                                job_dict={'id': 'j', 'status': 'completed', 'backend': rep['target'], 'metadata': md,
+                                          'stats': {'qubits': str(prog.input['qubits'])}})
+    res = job.results()
+    outs = []
+    for k, r in enumerate(res if isinstance(res, list) else [res]):
+        pk = None
+        if qpu:
+            out = r.to_cirq_result()
+        else:
+            pk = Picks(ch[k]['picks'] if k < len(ch) else [0])
+            out = r.to_cirq_result(seed=pk)
+        outs.append((r, {key: [[int(b) for b in row] for row in np.asarray(v)] for key, v in out.measurements.items()}, pk))
+    return outs
+
+
+def child_expected(child, qpu, reps):
+    """Rows per key the child must come back with (QPU: as a multiset of joint rows; simulator: in the order of the picks)."""
+    meas, hist = child['meas'], child['hist']
+    if qpu:
+        joint = []
+        for o, c in hist:
+            joint += [tuple(tuple(bits_of(o, ts)) for _, ts in meas)] * c
+        return sorted(joint)
+    picks = [child['picks'][j % len(child['picks'])] for j in range(reps)]
+    return [tuple(tuple(bits_of(hist[i % len(hist)][0], ts)) for _, ts in meas) for i in picks]
+
+
+def child_ok(child, r, rows, pk, qpu, reps):
+    """The statement for one child: every outcome on the right key and qubit, with the right weight."""
+    meas, hist = child['meas'], child['hist']
+    if list(rows) != [k for k, _ in meas] and set(rows) != {k for k, _ in meas}:
+        return False
+    joint = list(zip(*[[tuple(x) for x in rows[k]] for k, _ in meas]))
+    shots = sum(c for _, c in hist)
+    want = child_expected(child, qpu, reps)
+    try:
+        if qpu:
+            ok = sorted(joint) == want
+            for k, ts in meas:
+                cnt = {}
+                for o, c in hist:
+                    v = int(''.join(map(str, bits_of(o, ts))), 2)
+                    cnt[v] = cnt.get(v, 0) + c
+                ok = ok and dict(r.counts(k)) == cnt
+            return ok
+        ok = joint == want and len(pk.p) == len(hist) and np.allclose(pk.p, [c / shots for _, c in hist], atol=1e-12)
+        for k, ts in meas:
+            pr = {}
+            for o, c in hist:
+                v = int(''.join(map(str, bits_of(o, ts))), 2)
+                pr[v] = pr.get(v, 0) + c / shots
+            got = r.probabilities(k)
+            ok = ok and set(got) == set(pr) and all(abs(got[v] - pr[v]) < 1e-12 for v in pr)
+        return bool(ok)
+    except Exception:
+        return False
+
+
+def batch_results_judge(cirq, mods, rep, outs=None):
+    """(holds, class, text) on the real code."""
+    ch, qpu = rep['children'], rep['target'].startswith('qpu')
+    try:
+        outs = outs if outs is not None else run_batch_results_case(cirq, mods, rep)
+    except Exception as e:
+        return False, f'raises:{type(e).__name__}', f'raised {type(e).__name__}: {e}'
+    if len(outs) != len(ch):
+        return False, 'count', f'{len(outs)} results for {len(ch)} circuits'
+    for k, (child, (r, rows, pk)) in enumerate(zip(ch, outs)):
+        if child_ok(child, r, rows, pk, qpu, rep['reps']):
+            continue
+        other = [j for j in range(len(ch)) if j != k and child_ok(dict(child, hist=ch[j]['hist']), r, rows, pk, qpu, rep['reps'])]
+        want = child_expected(child, qpu, rep['reps'])
+        text = (f'the result at position {k} (circuit measuring {child["meas"]} on {child["n"]} qubit(s); the vendor answered '
+                f'{dict((str(o), c) for o, c in child["hist"])} for it under id {rep["ids"][k]!r}, little-endian) comes back as {rows}'
+                f'{"" if qpu else f" with weights {pk.p}"}; expected joint rows {[list(map(list, w)) for w in want[:4]]}'
+                + (f'; these are the outcomes the vendor reported for the circuit at position {other[0]}' if other else ''))
+        return False, 'other_child' if other else 'rows', text
+    return True, 'holds', ''
+
+
+def batch_results_oracle(cirq, mods, rep):
+    holds, cls, text = batch_results_judge(cirq, mods, rep)
+    print(f'IonQ batch results ({len(rep["children"])} circuits, target {rep["target"]}, child ids {rep["ids"]}): '
+          + ('every position got its own outcomes' if holds else text))
+    return holds
+
+
+def shrink_batch_results(cirq, mods, rep):
+    cur = rep
+    changed = True
+    while changed and len(cur['children']) > 2:
+        changed = False
+        for i in range(len(cur['children'])):
+            cand = dict(cur, children=cur['children'][:i] + cur['children'][i + 1:], ids=cur['ids'][:i] + cur['ids'][i + 1:])
+            if not batch_results_judge(cirq, mods, cand)[0]:
+                cur, changed = cand, True
+                break
+    return cur
+
+
+def report_batch_results(ctx, cirq, mods, rep):
+    small = shrink_batch_results(cirq, mods, rep)
+    holds, cls, text = batch_results_judge(cirq, mods, small)
+    if holds:
+        small, (holds, cls, text) = rep, batch_results_judge(cirq, mods, rep)
+    _disagree(ctx, 'correspondence:ionq_batch_results', json.dumps(small)[:300], f'ionq_batch_results:{cls}',
+              f'Job.results of a batch job of {len(small["children"])} circuits on target {small["target"]}, child ids in submission '
+              f'order {small["ids"]} ({small["scheme"]}): {text}', small)
+
+
+def batch_results_expr(rep, outs):
+    """The implementation's rows against Vendor/IonQBatch.v, or None when the shapes do not even line up (left to the oracle)."""
+    ch, qpu = rep['children'], rep['target'].startswith('qpu')
+    if len(outs) != len(ch) or any(set(rows) != {k for k, _ in c['meas']} for c, (_, rows, _) in zip(ch, outs)):
+        return None
+    nl = lambda ts: '[' + '; '.join(map(str, ts)) + ']%N'
+    metas = '[' + '; '.join(f'({c["n"]}%nat, [{"; ".join(nl(ts) for _, ts in c["meas"])}])' for c in ch) + ']'
+    impl = '[' + '; '.join('[' + '; '.join('Some [' + '; '.join('[' + '; '.join(map(str, row)) + ']' for row in rows[k]) + ']'
+                                             for k, _ in c['meas']) + ']' for c, (_, rows, _) in zip(ch, outs)) + ']'
+    if qpu:
+        ans = '[' + '; '.join(f'({cps(i)}, [{"; ".join(f"({o}, {w}%nat)" for o, w in c["hist"])}])' for i, c in zip(rep['ids'], ch)) + ']'
+        return f'batch_eqb (batch_qpu {metas} {ans}) {impl}'
+    ans = '[' + '; '.join(f'({cps(i)}, [{"; ".join(str(o) for o, _ in c["hist"])}])' for i, c in zip(rep['ids'], ch)) + ']'
+    picks = '[' + '; '.join('[' + '; '.join(str(c['picks'][j % len(c['picks'])]) for j in range(rep['reps'])) + ']%nat' for c in ch) + ']'
+    return f'batch_eqb (batch_sim {metas} {ans} {picks}) {impl}'
+
+
+def batch_results_stream(ctx, cirq, mods, dchecks, n_random):
+    rng = ctx.rng
+    cases = list(batch_results_fixed_cases(rng)) + [gen_batch_results_case(rng) for _ in range(n_random)]
+    for rep in cases:
+        ch = rep['children']
+        try:
+            outs = run_batch_results_case(cirq, mods, rep)
+        except Exception as e:
+            _disagree(ctx, 'correspondence:ionq_batch_results', f'{type(e).__name__}: {e}', f'ionq_batch_results:raises:{type(e).__name__}',
+                      f'converting the answer of a batch job ({len(ch)} circuits, child ids {rep["ids"]}) raised {type(e).__name__}: {e}', rep)
+            continue
+        ctx.count('ionq_batch_results', rep, len(ch) >= 2 and any(c['hist'] != ch[0]['hist'] or c['meas'] != ch[0]['meas'] for c in ch),
+                  sample=dict(ids=rep['ids'], target=rep['target'], children=ch, rows=[rows for _, rows, _ in outs][:3]))
+        expr = batch_results_expr(rep, outs)
+        if expr is not None:
+            dchecks.append(('ionq_batch_results', expr, rep, 'rows'))
+        if not batch_results_judge(cirq, mods, rep, outs)[0]:
+            report_batch_results(ctx, cirq, mods, rep)
+
+
+# the same through Service.run_batch (create_batch_job + results) against the stand-in vendor, which interprets every child program
+def _cl(fam, *w):
+    return dict(k='eig', fam=fam, e=1.0, s=0.0, w=list(w))
+
+
+def _cl_case(ops, meas):
+    return dict(vendor='ionq', gateset='qis', ops=ops, strat=['E'] * len(ops), meas=[dict(key=k, w=w) for k, w in meas], window=False)
+
+
+def e2e_batch_fixed_cases(rng):
+    batches = [
+        [_cl_case([_cl('XPow', 0)], [('a', [0, 1])]), _cl_case([_cl('XPow', 1)], [('b', [0, 1])])],
+        [_cl_case([_cl('XPow', 0), _cl('CXPow', 0, 2)], [('m', [2, 1, 0])]), _cl_case([_cl('XPow', 1)], [('lo', [0]), ('hi', [1])]),
+         _cl_case([_cl('XPow', 0)], [('only', [0])])],
+        [_cl_case([_cl('XPow', i), _cl('SwapPow', i, (i + 1) % 4)], [('z', [0, 1, 2, 3])]) for i in range(4)],
+    ]
+    for cases in batches:
+        for scheme in ID_SCHEMES:
+            for target in ('qpu', 'simulator'):
+                yield dict(kind='ionq_e2e', cases=cases, target=target, reps=2, mode='batch', scheme=scheme, ids=child_ids(scheme, len(cases), rng))
+
+
+def e2e_first_wrong(cirq, mods, rep):
+    cases = rep['cases']
+    got, _ = run_service(cirq, mods, [build_circuit(cirq, mods, c) for c in cases], rep['target'], rep['reps'], batch=True, ids=rep.get('ids'))
+    if len(got) != len(cases):
+        return f'{len(got)} results for {len(cases)} circuits'
+    for k, (c, g) in enumerate(zip(cases, got)):
+        bits = classical_bits(c)
+        want = {m['key']: [[bits[w] ^ int(bool(m.get('invert', [0] * len(m['w']))[i])) for i, w in enumerate(m['w'])]] * rep['reps']
+                for m in c['meas']}
+        if g != want:
+            return (f'position {k}, circuit {[(o["fam"], o["w"]) for o in c["ops"]]} measuring {[(m["key"], m["w"]) for m in c["meas"]]}, '
+                    f'must give {want} and comes back as {g}')
+    return 'no position differs on a second run'
+
+
+def e2e_batch_stream(ctx, cirq, mods, n_random):
+    rng = ctx.rng
+    reps_ = list(e2e_batch_fixed_cases(rng))
+    for _ in range(n_random):
+        cases = [gen_classical_case(rng) for _ in range(rng.randint(1, 4))]
+        scheme = rng.choice(ID_SCHEMES)
+        reps_.append(dict(kind='ionq_e2e', cases=cases, target=rng.choice(['qpu', 'simulator']), reps=rng.randint(1, 3), mode='batch',
+                          scheme=scheme, ids=child_ids(scheme, len(cases), rng)))
+    for rep in reps_:
+        cases = rep['cases']
+        ctx.count('ionq_e2e_batch', rep, len(cases) >= 2, sample=rep)
+        try:
+            ok = e2e_oracle(cirq, mods, rep)
+        except Exception as e:
+            _disagree(ctx, 'correspondence:ionq_e2e_batch', f'{type(e).__name__}: {e}', f'ionq_e2e_batch:raises:{type(e).__name__}',
+                      f'running a batch of classical circuits through cirq_ionq.Service.run_batch raised {type(e).__name__}: {e}', rep)
+            continue
+        if not ok:
+            where = e2e_first_wrong(cirq, mods, rep)
+            _disagree(ctx, 'correspondence:ionq_e2e_batch', json.dumps(rep)[:300], 'ionq_e2e_batch:bits',
+                      f'Service.run_batch of {len(cases)} classical circuits on target {rep["target"]}, the vendor (documented gate definitions) '
+                      f'answering one histogram per child in submission order under the child ids {rep["ids"]} ({rep["scheme"]}): {where}', rep)
 
 
 # ---------------------------------------------------------------------------------------------------
@@ -2735,6 +3039,19 @@ class Hist:
         return ids, holds, ''
 
 
+def measured_then_touched(cirq, circuit):
+    """Some operation acts on a qubit after that qubit was measured (the measurement is not terminal)."""
+    measured = set()
+    for moment in circuit:
+        for op in moment:
+            if measured & set(op.qubits):
+                return True
+        for op in moment:
+            if cirq.is_measurement(op):
+                measured |= set(op.qubits)
+    return False
+
+
 def run_history(cirq, mods, case):
     """Runs the whole history on the real code.  Returns dict(events=[Gallina event], posted=[[(id, r)]], calls=[...per submission...])."""
     h = Hist(cirq, mods, case)
@@ -2800,6 +3117,12 @@ def run_history(cirq, mods, case):
                 err = None
             except Exception as e:
                 raws, err = [], f'{type(e).__name__}: {e}'
+            if err is not None and not raws and any(measured_then_touched(cirq, objs[x]) for x in hows):
+                # in-place edits may leave an operation on a qubit AFTER its measurement (batch_insert at or behind the measurement's
+                # moment): content no vendor job can express.  Refused before anything was posted: nothing was altered, nothing to judge.
+                del events[len(events) - len(subs):]
+                log[-1] = text + f' -> refused ({err[:80]}): an operation follows a measurement on its qubit'
+                continue
             for n, ((how, j), want, ex) in enumerate(zip(subs, wants, exp)):
                 if n < len(raws):
                     got, holds, why = h.judge(raws[n], want)
@@ -2955,7 +3278,10 @@ def run(ctx):
                 'superposition gates x 3 entries (every VERIF_SEED), plus random gate lists with 0-2 measurements anywhere. Edge of the IonQ vocabulary: '
                 '(CZ, CY, iSWAP, CCZ, CCX, CCY, H, CNOT, SWAP powers; controlled X/Y/Z/H powers, rotations and two-qubit powers built by .controlled() '
                 'and by ControlledGate with 1-2 controls) x 18 exponents (special, window boundaries, generic) x wire layouts after a superposition '
-                'preparation (835 circuits, every VERIF_SEED) plus random ones; refused or accepted-with-the-same-unitary')
+                'preparation (835 circuits, every VERIF_SEED) plus random ones; refused or accepted-with-the-same-unitary. Batch results: 4 fixed batches '
+                '(children differing in outcome / width+keys / position of the excitation / weights only) x 6 child-id schemes x QPU and simulator through '
+                'Job.results, 3 fixed classical batches x 6 schemes x 2 targets through Service.run_batch (every VERIF_SEED), plus random batches of 1-4 '
+                'children; non-trivial = >= 2 children that differ')
     ctx.assumptions += ['vendor gate definitions transcribed in coq/Vendor/IonQ.v (trusted text)',
                         'adapters: JSON fields copied verbatim, angles turned into unit complex numbers by Python cos/sin',
                         'float instance tolerance 1e-9 (5e-7 when an exponent lies inside the serializer window)']
@@ -2983,6 +3309,8 @@ def run(ctx):
     mchecks = []
     aqt_meas_stream(ctx, cirq, mods, mchecks, 60 if q else 1500)
     ionq_edge_stream(ctx, cirq, mods, checks, dchecks, 60 if q else 1500)
+    batch_results_stream(ctx, cirq, mods, dchecks, 60 if q else 1500)
+    e2e_batch_stream(ctx, cirq, mods, 20 if q else 400)
     evaluate(ctx, cirq, mods, checks)
     evaluate_discrete(ctx, cirq, mods, dchecks)
     evaluate_history(ctx, cirq, mods, hchecks)
@@ -3018,7 +3346,7 @@ def replay(ctx, data):
         holds, small = payload_oracle(cirq, mods, data)
         print('batch payload holds:', holds, '' if holds else small)
         return holds
-    if kind in ('ionq_metadata', 'ionq_results', 'ionq_e2e', 'ionq_reject', 'aqt_payload', 'aqt_results', 'aqt_reject', 'aqt_meas', 'pasqal', 'history'):
+    if kind in ('ionq_metadata', 'ionq_results', 'ionq_batch_results', 'ionq_e2e', 'ionq_reject', 'aqt_payload', 'aqt_results', 'aqt_reject', 'aqt_meas', 'pasqal', 'history'):
         ok = replay_discrete(cirq, mods, data)
         return bool(ok)
     print('nothing to replay for', kind)
